@@ -24,7 +24,7 @@ func (w *World) guardedBy(at ssa.Instruction, callee *ssa.Function, idx int, wan
 
 func (w *World) sameKey(a, b ssa.Value) bool {
 	ka, kb := w.key(a), w.key(b)
-	return ka == kb && !strings.HasPrefix(ka, "rec:")
+	return ka == kb && !strings.Contains(ka, "rec:") && w.loadsAgree(a, b)
 }
 
 // fieldLoadOf: v is a load of field `name` of the object held in value base (pointer):
